@@ -622,11 +622,12 @@ class CallMixin:
                 st.assume(dt_off(d.t) == 0)
                 return [("val", d, st)]
             raise Unsupported("datetime constructor with a zone other than UTC")
-        if short in ("datetime.timedelta", "timedelta") and not args and all(isinstance(v_, (int, float)) for v_ in kwargs.values()):
-            unit = {"days": 86400.0, "hours": 3600.0, "minutes": 60.0, "seconds": 1.0, "milliseconds": 0.001, "microseconds": 0.000001}
+        if short in ("datetime.timedelta", "timedelta") and not args and all(isinstance(v_, (int, float)) or is_sym(v_, "int") for v_ in kwargs.values()):
+            # exact: integer (or constant) multiples of a unit; a symbolic FLOAT argument would be rounded to microseconds and is not modelled
+            unit = {"days": "86400", "hours": "3600", "minutes": "60", "seconds": "1", "milliseconds": "1/1000", "microseconds": "1/1000000"}
             if not set(kwargs) <= set(unit):
                 raise Unsupported("timedelta unit")
-            total = z3.Sum([z3.RealVal(str(v_)) * z3.RealVal(str(unit[k_])) for k_, v_ in kwargs.items()] + [z3.RealVal(0)])
+            total = z3.Sum([(z3.ToReal(v_.t) if is_sym(v_, "int") else z3.RealVal(str(v_))) * z3.RealVal(unit[k_]) for k_, v_ in kwargs.items()] + [z3.RealVal(0)])
             return [("val", Sym("td", simp(total)), st)]
         if short == "re.escape" and args:
             return [("val", fresh("str", "regex_escaped"), st)]   # S: some string (the literal, escaped)
